@@ -2155,6 +2155,16 @@ func (rl *clientConnReadLoop) processTrailers(cs *clientStream, f *MetaHeadersFr
 		// TODO: ConnectionError might be overly harsh? Check.
 		return ConnectionError(ErrCodeProtocol)
 	}
+	if f.Truncated {
+		// The trailers exceed our advertised header list size limit and
+		// some of them were dropped: fail rather than deliver a subset.
+		rl.endStreamError(cs, StreamError{
+			StreamID: f.StreamID,
+			Code:     ErrCodeProtocol,
+			Cause:    errResponseHeaderListSize,
+		})
+		return nil
+	}
 
 	trailer := make(http.Header)
 	for _, hf := range f.RegularFields() {
